@@ -803,6 +803,68 @@ pub fn run_ints(ctx: &Ctx, mode: Mode) -> Report {
     }
     nt_try_from_table!(ntf);
 
+    // random strings (numerals with long padding, signs, separators; arbitrary printable Unicode)
+    {
+        use proptest::prelude::*;
+        let cases = ctx.pick(2_000u64, 60_000, 1_000_000);
+        let proto = Sub::new(
+            "parse_random_strings",
+            "proptest strings: numerals with up to 40 leading zeros / signs / separators from [0-9+-_ :.a], arbitrary printable Unicode up to 8 characters, decimal renderings of random u128; parsed as all six types",
+            "non-trivial = the reference parser accepts the string for at least one type; distinct by hash",
+            false,
+        );
+        let sub = par_proptest(
+            ctx,
+            &proto,
+            cases,
+            || {
+                prop_oneof![
+                    4 => "[+]?0{0,40}[0-9]{1,6}",
+                    3 => "[0-9+\\-_ :.a]{0,12}",
+                    2 => "\\PC{0,8}",
+                    1 => any::<u128>().prop_map(|x| x.to_string()),
+                    1 => (0u32..20000).prop_map(|x| x.to_string()),
+                ]
+            },
+            |s: &String| json!({"conv": "parse_all", "string": s}),
+            move |s: &String| {
+                let mut nt = false;
+                macro_rules! p { ($($n:ident),*) => { $( check_parse::<$n>(mode, s)?; nt |= ref_parse(s, <$n as Nt>::MAXV).is_some(); )* }; }
+                p!(U4, U7, U14, Channel, KeyNumber, ControllerNumber);
+                Ok(ROutcome { nontrivial: nt, classes: if nt { vec!["accepted_by_reference"] } else { vec!["rejected_by_reference"] }, hash: hash_str(s) })
+            },
+        );
+        subs.push(sub);
+    }
+    // chains of two conversions agree with the direct conversion and with the value
+    {
+        let mut sub = Sub::new("conversion_chains", "every value through every chain of two infallible newtype conversions (U4->U7->U14, U4->Channel->U4, U7->KeyNumber->U7, U7->ControllerNumber->U7, ...) and fallible ones back", "every value", true);
+        for v in 0..=15u128 {
+            sub.eval(v, || json!({"conv": "chain", "kind": "u4", "value": v as u64}), || {
+                let a = U4::new_repr(v);
+                let b: U14 = api(|| U14::from(U7::from(a)));
+                ensure!(b.getw() == v && api(|| U14::from(a)).getw() == v, "chain/u4_u7_u14", "{:?}", b);
+                let c: U4 = api(|| U4::from(Channel::from(a)));
+                ensure!(c == a, "chain/u4_channel_u4", "{:?}", c);
+                let d = api(|| U4::try_from(U14::from(U7::from(a))));
+                ensure!(d.ok() == Some(a), "chain/u4_u14_u4", "value {}", v);
+                Ok(true)
+            });
+        }
+        for v in 0..=127u128 {
+            sub.eval(v, || json!({"conv": "chain", "kind": "u7", "value": v as u64}), || {
+                let a = U7::new_repr(v);
+                ensure!(api(|| U7::from(KeyNumber::from(a))) == a, "chain/u7_key_u7", "value {}", v);
+                ensure!(api(|| U7::from(ControllerNumber::from(a))) == a, "chain/u7_cn_u7", "value {}", v);
+                ensure!(api(|| U7::try_from(U14::from(a))).ok() == Some(a), "chain/u7_u14_u7", "value {}", v);
+                ensure!(api(|| U4::try_from(U14::from(a))).ok().map(|x| x.getw()) == if v <= 15 { Some(v) } else { None }, "chain/u7_u14_u4", "value {}", v);
+                ensure!(api(|| KeyNumber::from(U7::from(ControllerNumber::from(a)))).getw() == v, "chain/u7_cn_u7_key", "value {}", v);
+                Ok(true)
+            });
+        }
+        sub.samples.push(json!({"conv": "chain", "kind": "u7", "value": 127}));
+        subs.push(sub);
+    }
     if mode == Mode::C05 {
         macro_rules! ip {
             ($n:ident; $($t:ty),*) => {{
@@ -859,6 +921,13 @@ pub fn replay_ints(mode: Mode, _sub: &str, case: &Value) -> Option<CheckResult> 
         }
         "consts" => by_target!(check_consts(mode)),
         "controller_constants" => Some(check_controller_constants()),
+        "parse_all" => {
+            let st = case["string"].as_str()?.to_string();
+            let mut r: CheckResult = Ok(false);
+            macro_rules! p { ($($n:ident),*) => { $( if r.is_ok() { r = check_parse::<$n>(mode, &st); } )* }; }
+            p!(U4, U7, U14, Channel, KeyNumber, ControllerNumber);
+            Some(r)
+        }
         "produced_cc14" => Some(produced_cc14(json_u8(&case["channel"]).filter(|c| *c < 16)?, json_u8(&case["controller"]).filter(|c| *c < 32)?, json_u64(&case["value"]).filter(|c| *c < 16384)? as u16)),
         "produced_pn" => {
             let c = json_u64(&case["ctor"]).filter(|c| *c < 8)? as usize;
